@@ -358,6 +358,78 @@ func c03Round(c *Ctx) {
 	}
 	c.analysed(fnName(fn))
 	fs := computeFacts(fn)
+	// exchangeWith: in f, starting after `origin` (or at the entry when nil), every path on which the list is
+	// non-empty initiates gossip(node) with node an element of the list.
+	var exchangeWith func(f *ssa.Function, origin ssa.Instruction, derives func(ssa.Value) bool, depth int) (string, ssa.Instruction)
+	exchangeWith = func(f *ssa.Function, origin ssa.Instruction, derives func(ssa.Value) bool, depth int) (string, ssa.Instruction) {
+		var call ssa.Instruction
+		var viaHelper *ssa.Function
+		allInstrs(f, func(i ssa.Instruction) {
+			cl, ok := i.(*ssa.Call)
+			if !ok {
+				return
+			}
+			if commonName(&cl.Call) == gsFn("Gossip).gossip") {
+				if derives(cl.Call.Args[1]) {
+					call = cl
+				}
+				return
+			}
+			// handed to a helper of the same receiver that does the exchange
+			if sc := cl.Call.StaticCallee(); sc != nil && depth < 2 && inModule(sc) && sc.Signature.Recv() != nil && call == nil {
+				for k, a := range cl.Call.Args {
+					if k == 0 || !derives(a) {
+						continue
+					}
+					pv := sc.Params[k]
+					if bad, _ := exchangeWith(sc, nil, func(v ssa.Value) bool { return derivesFromValue(v, pv, 0) }, depth+1); bad == "" {
+						call, viaHelper = cl, sc
+					}
+				}
+			}
+		})
+		if call == nil {
+			return "no exchange is initiated with a member of the list", nil
+		}
+		isCallI := func(i ssa.Instruction) bool { return i == call }
+		var paths []fpath
+		if origin != nil {
+			paths, _ = enumPaths(origin, isCallI, nil, func(pa *fpath) bool { return len(pa.seen) > 0 }, 200)
+		} else {
+			paths, _ = enumPathsAt(f.Blocks[0], 0, isCallI, nil, func(pa *fpath) bool { return len(pa.seen) > 0 }, 200)
+		}
+		for _, pa := range paths {
+			if len(pa.seen) > 0 {
+				continue
+			}
+			if viaHelper != nil {
+				// the helper decides about emptiness; the caller may skip it only by returning an error
+				if pa.endWhy == "return" {
+					rv := returnValues(pa.end.(*ssa.Return))
+					if len(rv) > 0 && !isNilConst(rv[len(rv)-1]) {
+						continue
+					}
+				}
+				return "a path ends at " + p.pos(pa.end.Pos()) + " without handing the list to " + viaHelper.Name(), call
+			}
+			empty := anyFact(pa.facts, func(f Fact) bool {
+				isLen := func(v ssa.Value) bool {
+					cl, ok := v.(*ssa.Call)
+					if !ok {
+						return false
+					}
+					b, ok := cl.Call.Value.(*ssa.Builtin)
+					return ok && b.Name() == "len" && derives(cl.Call.Args[0])
+				}
+				isZero := func(v ssa.Value) bool { k, ok := constInt(v); return ok && k == 0 }
+				return cmpFact(f, token.LEQ, isLen, isZero) || cmpFact(f, token.EQL, isLen, isZero)
+			})
+			if !empty {
+				return "a path with a non-empty list ends at " + p.pos(pa.end.Pos()) + " without initiating an exchange; facts " + factStrings(pa.facts), call
+			}
+		}
+		return "", call
+	}
 	for _, src := range []string{"LiveNodes", "UnreachableNodes"} {
 		var list *ssa.Call
 		allInstrs(fn, func(i ssa.Instruction) {
@@ -370,47 +442,47 @@ func c03Round(c *Ctx) {
 			c.fail("C03.R3", key, fn.Pos(), "the round never consults "+src+"()")
 			continue
 		}
-		// a gossip(node) call with node an element of that list, under len(list) > 0
-		var call *ssa.Call
-		allInstrs(fn, func(i ssa.Instruction) {
-			cl, ok := i.(*ssa.Call)
-			if !ok || commonName(&cl.Call) != gsFn("Gossip).gossip") {
-				return
-			}
-			if derivesFromCall(cl.Call.Args[1], list, 0) {
-				call = cl
-			}
-		})
-		if call == nil {
-			c.fail("C03.R3", key, list.Pos(), "no exchange is initiated with a member of "+src+"()")
-			continue
+		bad, call := exchangeWith(fn, list, func(v ssa.Value) bool { return derivesFromCall(v, list, 0) }, 0)
+		pos := list.Pos()
+		if call != nil {
+			pos = call.Pos()
 		}
-		// every path from the list call on which len(list) > 0 reaches the call, except error returns
-		paths, _ := enumPaths(list, func(i ssa.Instruction) bool { return i == ssa.Instruction(call) }, nil, func(pa *fpath) bool { return len(pa.seen) > 0 }, 200)
-		bad := ""
-		for _, pa := range paths {
-			if len(pa.seen) > 0 {
-				continue
-			}
-			empty := anyFact(pa.facts, func(f Fact) bool {
-				isLen := func(v ssa.Value) bool {
-					cl, ok := v.(*ssa.Call)
-					if !ok {
-						return false
-					}
-					b, ok := cl.Call.Value.(*ssa.Builtin)
-					return ok && b.Name() == "len" && derivesFromCall(cl.Call.Args[0], list, 0)
-				}
-				isZero := func(v ssa.Value) bool { k, ok := constInt(v); return ok && k == 0 }
-				return cmpFact(f, token.LEQ, isLen, isZero) || cmpFact(f, token.EQL, isLen, isZero)
-			})
-			if !empty {
-				bad = "a path with a non-empty " + src + "() ends at " + p.pos(pa.end.Pos()) + " without initiating an exchange; facts " + factStrings(pa.facts)
-			}
+		if bad != "" {
+			bad = src + "(): " + bad
 		}
-		_ = fs
-		c.check(bad == "", "C03.R3", key, call.Pos(), "initiates with a member of "+src+"() whenever it is non-empty", bad)
+		c.check(bad == "", "C03.R3", key, pos, "initiates with a member of "+src+"() whenever it is non-empty", bad)
 	}
+	_ = fs
+}
+
+// derivesFromValue: v is src, an element/slice/field of it.
+func derivesFromValue(v ssa.Value, src ssa.Value, d int) bool {
+	if d > 8 {
+		return false
+	}
+	v = strip(v)
+	if v == src {
+		return true
+	}
+	switch x := v.(type) {
+	case *ssa.UnOp:
+		return derivesFromValue(x.X, src, d+1)
+	case *ssa.IndexAddr:
+		return derivesFromValue(x.X, src, d+1)
+	case *ssa.Index:
+		return derivesFromValue(x.X, src, d+1)
+	case *ssa.Slice:
+		return derivesFromValue(x.X, src, d+1)
+	case *ssa.FieldAddr:
+		return derivesFromValue(x.X, src, d+1)
+	case *ssa.Field:
+		return derivesFromValue(x.X, src, d+1)
+	case *ssa.Alloc:
+		if sv, _ := singleStore(x); sv != nil {
+			return derivesFromValue(sv, src, d+1)
+		}
+	}
+	return false
 }
 
 func derivesFromCall(v ssa.Value, call *ssa.Call, d int) bool {
